@@ -160,7 +160,10 @@ class World(BaseWorld):
             seen.add(fs)
             if homogeneous(k) and all(isinstance(x, (int, str)) for x in k) and tuple(sorted(k)) != k:
                 self.fail("not_canonical", "%s: key %r is not sorted" % (where, k))
-        # models denoting the same function compare equal
+        # models denoting the same function compare equal (building the twin touches the class's key normaliser, so in
+        # sparse-observation runs it is only done at observed ops)
+        if not getattr(self, "observing", True):
+            return
         try:
             canon = {tuple(sorted(k, key=okey)): float(v) if v.denominator != 1 else int(v) for k, v in s.shadow.t.items()}
             twin = self.T[s.t](canon)
@@ -381,7 +384,10 @@ class World(BaseWorld):
             v = self.gen_coef(rng, allow_zero=True)
         if isinstance(v, Fraction):
             v = float(v)
-        return {"op": "item", "f": f, "a": a, "key": enc_key(key), "v": v}
+        op = {"op": "item", "f": f, "a": a, "key": enc_key(key), "v": v}
+        if rng.random() < 0.5:
+            op["retry"] = True
+        return op
 
     def gen_update(self, rng):
         a = self.pick(rng, lambda s: s.is_model)
@@ -927,6 +933,26 @@ class World(BaseWorld):
             else:
                 A.obj[key] *= v
         except KeyError as e:
+            if big and op.get("retry"):
+                # the caller simply tries the same statement again: a rejected edit must be rejected again
+                self.fault("retry_after_keyerror")
+                try:
+                    if f == "set":
+                        A.obj[key] = v
+                    elif f == "iadd":
+                        A.obj[key] += v
+                    elif f == "isub":
+                        A.obj[key] -= v
+                    else:
+                        A.obj[key] *= v
+                    self.fail("missing_keyerror", "%s raised KeyError the first time and was silently accepted when retried" % where)
+                    return "bad"
+                except KeyError:
+                    pass
+                except Violation:
+                    raise
+                except Exception as e2:
+                    self.fail("unexpected_exception", "%s (retry): %s: %s" % (where, type(e2).__name__, e2))
             self.check_untouched({a}, where)
             if big:
                 self.probe("keyerror_degree2")
